@@ -47,6 +47,9 @@ def address_universe(tier):
     texts += ['0::ffff:' + x for x in v4]          # IPv4-mapped
     texts += ['0::' + x for x in v4[:3]]            # IPv4-compatible
     texts += ['0::ffff:0:102', '0::1:102:304', '0::1', '0::']
+    # the server may spell hexadecimal digits in upper case (and mixed), also in the IPv4-mapped prefix
+    texts += [t.upper() for t in texts if any(c in 'abcdef' for c in t)][::7]
+    texts += ['2001:DB8::A:B', 'FE80::1:2:3:4', '0::FFFF:192.0.2.77', 'AbCd:0:0:eF01::1', 'FFFF:FFFF:FFFF:FFFF:FFFF:FFFF:FFFF:FFFF']
     return sorted(set(texts))
 
 _W = {}
@@ -185,10 +188,32 @@ def long_relays(run, tier, b):
     return {'long_relay_traces': n}
 
 
+def class_lengths(run, tier, b):
+    """Class values and rule names at and around the 63-character limit: the verdict must stay a valid line carrying the announced address."""
+    n = 0
+    for L in (1, 62, 63, 64, 65, 100):
+        for as_name in (False, True):
+            rules = [('x' * L, {}) if as_name else ('r', {'class': 'c' * L})]
+            conf = e1.conf_text(os.path.join(b, 'mods-wrapped'), services=[], timeout=0, rules=rules)
+            with e1.Server(conf, builddir=b) as srv:
+                lines = ['5 C 10.1.2.3 40000 10.9.9.9 6667', '5 H']
+                res, status, err, ex = srv.trace([('L', l + '\n') for l in lines], 0)
+                n += 1
+                for r in res:
+                    for o in r.out:
+                        p = proto.parse_line(o)
+                        ok = p.kind != 'bad' and (p.kind != 'client' or (p.id == 5 and p.port == 40000 and proto.same_address(p.ip, '10.1.2.3')))
+                        if not ok:
+                            run.violation('C09.wrong-address' if p.kind == 'client' else 'C09.malformed-line', '[class %s of %d characters] the daemon wrote %r for the client announced as 10.1.2.3 40000'
+                                          % ('name' if as_name else 'value', L, o[:120]), {'engine': 'E1-trace', 'conf': conf, 'lines': lines}, dedup='classlen|%s' % as_name)
+    return {'class_length_traces': n}
+
+
 def main(tier):
     def extra(run):
         b = build.build()
         c = addresses(run, tier, b)
+        c.update(class_lengths(run, tier, b))
         c.update(logs_universe(run, tier, b))
         c.update(long_relays(run, tier, b))
         return c
